@@ -85,6 +85,18 @@ def zoo(tier, seed):
         note="u*f*dx has no test function: dropped by every part (comment in compute_form_with_arity)"))
     A(Z("grad_of_sum", raw_quick=True, form=inner(grad(u * f + g), grad(v)) * dx, f=h, deriv=True,
         note="grad handler on an affine compound; obligations use Dx additivity / Leibniz"))
+    # affine sums UNDER the linear wrappers (restriction, conj/real/imag, grad, variable, indexing):
+    # the handlers must rebuild the wrapper around the extracted part of their operand
+    A(Z("affine_under_restriction", raw_quick=True, form=(u - f)("+") * v("-") * dS + (u * g + h)("-") * v("+") * dS(2)
+        + avg(u - f) * jump(v) * dS, f=h))
+    A(Z("affine_under_conj_real_imag", raw_quick=True, form=conj(u - f) * v * dx + real(u * g + h) * v * ds
+        + imag(u - f) * conj(v) * dx(1), f=h,
+        note="conj/real/imag of an affine sum: lhs/rhs parts are conj-/real-linear images of the parts"))
+    A(Z("affine_under_grad", raw_quick=True, form=inner(grad(u + f), grad(v)) * dx
+        + as_vector([u - f, u * g])[0] * v * dx(2) + variable(u - f) * v * ds, f=h, deriv=True,
+        energy=False, adjoint=False))
+    A(Z("affine_under_index", raw_quick=True, form=(uu - w)[0] * vv[1] * ds + (uu + w)[i] * vv[i] * dx
+        + as_tensor((uu - w)[j] * f, (j,))[k] * vv[k] * dx(1), f=Coefficient(W)))
     # MixedFunctionSpace: arguments with parts
     P2 = FunctionSpace(m, LagrangeElement(m.ufl_cell(), 2, ()))
     MS = MixedFunctionSpace(V, P2)
